@@ -77,10 +77,16 @@ class Cli:
 
     def run(self, args):
         env = {"HOME": os.path.join(self.root, "home"), "PATH": "/usr/bin:/bin", "NO_COLOR": "1"}
-        p = subprocess.run([self.jaq] + args, cwd=os.path.join(self.root, "work"), env=env, timeout=30,
-                           stdin=subprocess.DEVNULL, stdout=subprocess.PIPE, stderr=subprocess.PIPE,
-                           text=True, errors="replace")
-        return p.returncode, p.stdout, p.stderr
+        # no timing is checked: the generous timeout only guards against a hang; one retry on a loaded machine
+        for attempt in (0, 1):
+            try:
+                p = subprocess.run([self.jaq] + args, cwd=os.path.join(self.root, "work"), env=env, timeout=900,
+                                   stdin=subprocess.DEVNULL, stdout=subprocess.PIPE, stderr=subprocess.PIPE,
+                                   text=True, errors="replace")
+                return p.returncode, p.stdout, p.stderr
+            except subprocess.TimeoutExpired:
+                if attempt == 1:
+                    raise verif.CheckError("jaq did not finish within 900 s (twice): " + " ".join(args)[:300])
 
 
 def meta_text(meta):
@@ -115,7 +121,7 @@ def classify_real(rc, out, err, kind):
 
 def find_request(cli, fix, ext, parent_file, rel, metas, libs):
     files, dirs = cli.snapshot()
-    toks = ["c16.find", "1" if fix else "0", eq(ext), eq(os.path.join(cli.root, "home")),
+    toks = ["c16.find", "1" if fix else "c", eq(ext), eq(os.path.join(cli.root, "home")),
             eq(os.path.join(cli.root, "bin")), eq(os.path.join(cli.root, "work")), eq(parent_file), eq(rel),
             "M%d" % len(metas)] + [eq(m) for m in metas] + ["L%d" % len(libs)] + [eq(l) for l in libs] + \
            ["F%d" % len(files)] + [eq(f) for f in files] + ["D%d" % len(dirs)] + [eq(d) for d in dirs]
@@ -251,7 +257,7 @@ def run_cli_part(ctx):
     for search in ("./", "../lib2", "d1", "~/hl"):
         scen.append(dict(kind="mod", rel="m", meta=search, libs=["lib1"], main="module:lib1/a.jq",
                          files=["(m.jq in work, lib1, lib2, lib1/d1)"], group="nested"))
-    nw = 8
+    nw = 4
     clis = []
     try:
         for i in range(nw):
@@ -297,9 +303,31 @@ def run_cli_part(ctx):
 
 
 def run_graph_part(ctx):
-    out = ctx.harness(["c16", "gen"])
-    cases = [tuple(l.split("\t")) for l in out.splitlines() if l]
-    cases = [c for c in cases if len(c) == 3]
+    import subprocess
+    pr = subprocess.run([ctx.harness_bin, "c16", "gen"], stdout=subprocess.PIPE, stderr=subprocess.PIPE, text=True,
+                        errors="replace", timeout=3600,
+                        env={**os.environ, "VERIF_SEED": str(ctx.seed), "VERIF_TIER": ctx.tier})
+    reqs, anss = {}, {}
+    order = []
+    for l in pr.stdout.splitlines():
+        if l.startswith("REQ "):
+            cid, req = l[4:].split("\t", 1)
+            reqs[cid] = req
+            order.append(cid)
+        elif l.startswith("ANS "):
+            cid, a = l[4:].split("\t", 1)
+            anss[cid] = a
+    if pr.returncode != 0:
+        crashed = [cid for cid in order if cid not in anss]
+        if not crashed:
+            raise verif.CheckError("harness c16 gen failed: " + pr.stderr[-2000:])
+        cid = crashed[0]
+        ctx.violation("c16-crash:" + cid,
+                      "the real loader/compiler crashes the process on this module graph (stack overflow: a circular "
+                      "include/import is followed instead of being reported?)",
+                      {"request": reqs[cid], "exit": pr.returncode, "stderr": pr.stderr[-600:]},
+                      broken=["JaqVerif.Props.C16.cycle_is_error", "correspondence c16-graph"])
+    cases = [(cid, reqs[cid], anss[cid]) for cid in order if cid in anss]
     for c in [c for c in cases if c[2].startswith("PANIC")][:10]:
         ctx.violation("c16-panic:" + c[0], "loading/compiling/running a module graph panics", {"request": c[1], "real": c[2]})
     cases = [c for c in cases if not c[2].startswith("PANIC")]
@@ -335,17 +363,25 @@ def run_graph_part(ctx):
                               {"request": c[1], "modular": real_out, "inlined_model": mout, "program": prog})
         single_in.append("%s\t%s\t%s" % (c[0], ",".join(toks[2:2 + k]), prog))
         want[c[0]] = (real_out, c[1], prog)
-    res = ctx.harness(["c16", "single"], input="\n".join(single_in) + "\n")
+    res = ctx.harness(["c16", "single"], input="\n".join(single_in) + "\n", check=False)
     got = dict(l.split("\t", 1) for l in res.splitlines() if "\t" in l)
     bad_inline = 0
-    for cid, (real_out, req, prog) in want.items():
-        g = got.get(cid, "MISSING")
-        if g != real_out:
+    for line in single_in:
+        cid = line.split("\t", 1)[0]
+        real_out, req, prog = want[cid]
+        if cid not in got:
+            # the process died on this program (stack overflow); the rest was not run
+            bad_inline += 1
+            ctx.violation("c16-inline-crash:" + cid, "the inlined form of a terminating modular program crashes the real code",
+                          {"request": req, "modular_real": real_out, "inlined_program": prog},
+                          broken=["JaqVerif.Props.C16.resolve_modules_eq_resolve_inlined_partial"])
+            break
+        if got[cid] != real_out:
             bad_inline += 1
             if bad_inline <= 10:
                 ctx.violation("c16-inline:" + cid,
                               "the modular program and its inlined form give different results on the real code",
-                              {"request": req, "modular_real": real_out, "inlined_real": g, "inlined_program": prog},
+                              {"request": req, "modular_real": real_out, "inlined_real": got[cid], "inlined_program": prog},
                               broken=["JaqVerif.Props.C16.resolve_modules_eq_resolve_inlined_partial"])
     kinds = {}
     feats = {"circular": 0, "same-file-two-names": 0, "default-path": 0, "syntax": 0, "notfound": 0,
@@ -378,8 +414,15 @@ def run(ctx):
     proof = ctx.lean_check()
     ctx.log("lean:", "ok" if proof["ok"] else "BROKEN", len(proof["theorems"]), "theorems")
 
-    cases, kinds, feats, n_inl, bad, bad_inline, gsamples = run_graph_part(ctx)
-    n_cli, n_cli_distinct, groups, csamples, bad_corr, bad_prop = run_cli_part(ctx)
+    part = os.environ.get("C16_PART", "all")   # self-test aid: run only one half (`graphs` | `cli`)
+    cases, kinds, feats, n_inl, bad, bad_inline, gsamples = ([], {}, {}, 0, 0, 0, [])
+    n_cli, n_cli_distinct, groups, csamples, bad_corr, bad_prop = (0, 0, {}, [], 0, 0)
+    if part in ("all", "graphs"):
+        cases, kinds, feats, n_inl, bad, bad_inline, gsamples = run_graph_part(ctx)
+    if part in ("all", "cli"):
+        n_cli, n_cli_distinct, groups, csamples, bad_corr, bad_prop = run_cli_part(ctx)
+    if part != "all":
+        ctx.notes.append("partial run: C16_PART=" + part)
 
     distinct_graphs = len({c[1] for c in cases})
     ctx.coverage.update({
